@@ -371,6 +371,44 @@ def shell_event(case):
     return [ev]
 
 
+def shell_set_event(case):
+    """Assign one attribute of an existing consistent shell (nexp x ncon) a value of another shape."""
+    from iodata.basis import Shell
+    nexp, ncon, name, new = case
+    sh = Shell(0, [0] * ncon, ["c"] * ncon, np.linspace(1.0, 2.0, nexp), np.ones((nexp, ncon)))
+    c = {"nang": ncon, "nkind": ncon, "nexp": nexp, "rows": nexp, "cols": ncon}
+    try:
+        if name == "angmoms":
+            c["nang"] = new
+            sh.angmoms = [1] * new
+        elif name == "kinds":
+            c["nkind"] = new
+            sh.kinds = ["c"] * new
+        elif name == "exponents":
+            c["nexp"] = new
+            sh.exponents = np.linspace(1.0, 2.0, new)
+        elif name == "coeffs_rows":
+            c["rows"] = new
+            sh.coeffs = np.ones((new, ncon))
+        else:
+            c["cols"] = new
+            sh.coeffs = np.ones((nexp, new))
+        r = "ok"
+    except Exception:
+        r = "rejected"
+    return [{"op": "ShellSet", "c": c, "name": name, "r": r}]
+
+
+def shell_set_cases():
+    out = []
+    for nexp in (1, 2, 3):
+        for ncon in (1, 2, 3):
+            for name in ("angmoms", "kinds", "exponents", "coeffs_rows", "coeffs_cols"):
+                for new in (1, 2, 3, 4):
+                    out.append((nexp, ncon, name, new))
+    return out
+
+
 def shell_cases(rng, thorough):
     cases = []
     ls = list(range(0, 10))
@@ -396,6 +434,10 @@ def shell_cases(rng, thorough):
 def describe(tr, r):
     ev = tr[r]
     prev = tr[r - 1]["obs"] if r > 0 else {}
+    if ev["op"] == "ShellSet":
+        c = ev["c"]
+        return (f"Shell assignment of {ev['name']} giving ang={c['nang']} kinds={c['nkind']} exp={c['nexp']} coeffs={c['rows']}x{c['cols']} result={ev['r']}",
+                f"assignment to an attribute of an existing Shell disagrees with Orbitals!ShapeOK: {ev}")
     if ev["op"] == "Shell":
         c = ev["c"]
         key = f"Shell shapes ang={c['nang']} kinds={c['nkind']} exp={c['nexp']} coeffs={c['rows']}x{c['cols']} result={ev['r']} nbasis={'set' if ev['nbasis'] else 'error'}"
@@ -457,6 +499,7 @@ def check(run: Run):
     traces += pmap(_random_history, [(base + i, run.pick(8, 14)) for i in range(run.pick(3000, 40000))])
     nmo = len(traces)
     traces += pmap(shell_event, shell_cases(rng, run.thorough()))
+    traces += pmap(shell_set_event, shell_set_cases())
     run.notes["tree_histories"] = ntree
     run.notes["shell_cases"] = len(traces) - nmo
 
@@ -464,7 +507,7 @@ def check(run: Run):
     import json
     for tr, r in zip(traces, reached):
         run.count()
-        if len(tr) > 1 or tr[0]["op"] == "Shell" or any(tr[0]["a"][n] for n in ARRMAP):
+        if len(tr) > 1 or tr[0]["op"] in ("Shell", "ShellSet") or any(tr[0]["a"][n] for n in ARRMAP):
             run.distinct(hash(json.dumps([{k: e[k] for k in e if k != "obs"} for e in tr], sort_keys=True)))
         if r != len(tr):
             key, what = describe(tr, r)
@@ -485,6 +528,9 @@ def replay(rec):
         print("  ", {k: e[k] for k in e if k != "obs"})
     run = Run("C12", "quick", 0, LEVEL)
     # re-execute
+    if tr[0]["op"] == "ShellSet":
+        print("re-run ./check C12 to re-execute shell assignments")
+        return 1
     if tr[0]["op"] == "Shell":
         c = tr[0]["c"]
         new = shell_event((c["nang"], c["nkind"], c["nexp"], c["rows"], c["cols"], c["ang"], c["kinds"]))
